@@ -86,6 +86,41 @@ def same_grads(res, key, got, want, what, rtol=1e-4):
     return True
 
 
+def through_update(res, key, what, pol, update, want_loss, want_grads, lr=0.5):
+    """The same objective as seen through the routine that trains the actor
+    with it: on a copy of the actor with plain SGD, the reported loss is the
+    documented value and the step is -lr times the documented gradient."""
+    import optax
+    from flax import nnx
+
+    pc = nnx.clone(pol)
+    opt = nnx.Optimizer(pc, optax.sgd(lr), wrt=nnx.Param)
+    before = leaves(nnx.state(pc, nnx.Param))
+    ok, val = guarded(res, f"{key}/raises", update, pc, opt)
+    if not ok:
+        return False
+    if not same_value(res, f"{key}/value", val, want_loss,
+                      f"{what} (loss reported by the update routine)"):
+        return False
+    after = leaves(nnx.state(pc, nnx.Param))
+    step = [(b - a) / -lr for a, b in zip(before, after)]
+    w = leaves(nnx.state(want_grads, nnx.Param)
+               if not isinstance(want_grads, list) else want_grads)
+    if len(step) != len(w):
+        w = leaves(want_grads)
+    scale = max([np.max(np.abs(x)) for x in w] + [1e-8])
+    for i, (a, b) in enumerate(zip(step, w)):
+        if a.shape != b.shape or not np.allclose(a, b, rtol=2e-3,
+                                                 atol=2e-4 * scale + 1e-6):
+            res.violation(f"{key}/step", f"{what}: the SGD step taken by the update "
+                          f"routine is not -lr * gradient of the documented "
+                          f"objective (leaf {i})",
+                          {"got": a.ravel()[:6], "want": b.ravel()[:6]})
+            return False
+    res.see("update_routine_steps_checked")
+    return True
+
+
 def same_value(res, key, got, want, what, rtol=1e-4):
     got, want = float(got), float(want)
     res.see("loss_values_checked")
@@ -310,6 +345,9 @@ def run_dpg(case, res):
     rl, rg = nnx.value_and_grad(ref)(pol, q)
     same_value(res, "C12/dpg/value", out[0], rl, "deterministic policy gradient loss")
     same_grads(res, "C12/dpg/gradient", out[1], rg, "DPG actor gradient")
+    from rl_blox.algorithm.ddpg import ddpg_update_actor
+    through_update(res, "C12/dpg/update_routine", "ddpg_update_actor", pol,
+                   lambda pc, opt: ddpg_update_actor(pc, opt, q, obs), rl, rg)
     res.nontrivial = True
     res.state(("dpg", N))
     return res
@@ -450,6 +488,10 @@ def run_sac_actor(case, res):
     rl, rg = nnx.value_and_grad(ref)(pol, q)
     same_value(res, "C12/sac_actor/value", out[0], rl, "SAC actor loss")
     same_grads(res, "C12/sac_actor/gradient", out[1], rg, "SAC actor gradient")
+    from rl_blox.algorithm.sac import sac_update_actor
+    through_update(res, "C12/sac_actor/update_routine", "sac_update_actor", pol,
+                   lambda pc, opt: sac_update_actor(pc, opt, q, key, obs, alpha),
+                   rl, rg)
     res.nontrivial = True
     res.state(("sac_actor", N))
     return res
